@@ -10,4 +10,4 @@ Definition era_day_ok (doe : Z) : bool :=
   && (doe_of yoe m d =? doe).
 
 Lemma era_days_ok : Zforall_range 0 146097 era_day_ok = true.
-Proof. vm_cast_no_check (eq_refl true). Qed.
+Proof. vm_compute. reflexivity. Qed.
